@@ -36,3 +36,35 @@ Lemma layout_exists e : facets_ok e = true ->
 Proof.
   intros Hf. exists (canon_written (toks 0 e)). exact (canon_written_ok _ (toks_printable e Hf 0)).
 Qed.
+
+(* every writing of ANY expression: the result is [psem e], errors included *)
+Theorem get_ast_render_psem e ws trail :
+  wf_written ws = true -> tokens_written ws = toks 0 e -> get_ast (render ws trail) = psem e.
+Proof.
+  intros Hw Ht. unfold get_ast. rewrite (tokens_of_render ws trail Hw), Ht. apply parse_toks_psem.
+Qed.
+
+(* the written expressions the parser accepts are exactly those without a cell
+   complement below #( ) and without a complement right after a colon *)
+Theorem accepted_written_iff e ws trail :
+  wf_written ws = true -> tokens_written ws = toks 0 e ->
+  ((exists a, get_ast (render ws trail) = Ok a) <-> accepted e = true).
+Proof. intros Hw Ht. rewrite (get_ast_render_psem e ws trail Hw Ht). apply psem_ok_iff. Qed.
+
+Theorem nested_rejected_written e ws trail :
+  wf_written ws = true -> tokens_written ws = toks 0 e ->
+  no_colon_hash e = true -> no_cell_under_not e = false ->
+  get_ast (render ws trail) = Err EAttribute.
+Proof.
+  intros Hw Ht Hg Hc. unfold get_ast. rewrite (tokens_of_render ws trail Hw), Ht.
+  now apply nested_rejected.
+Qed.
+
+Theorem colon_hash_rejected_written e ws trail :
+  wf_written ws = true -> tokens_written ws = toks 0 e ->
+  no_cell_under_not e = true -> no_colon_hash e = false ->
+  get_ast (render ws trail) = Err EParse.
+Proof.
+  intros Hw Ht Hc Hg. unfold get_ast. rewrite (tokens_of_render ws trail Hw), Ht.
+  now apply colon_hash_rejected.
+Qed.
